@@ -53,7 +53,7 @@ fn families() -> Vec<(&'static str, Vec<Vec<(&'static str, VariantType)>>)> {
         ("ScreenGui", vec![vec![("IgnoreGuiInset", T::Bool), ("ScreenInsets", T::Enum)], vec![("Enabled", T::Bool)], vec![("DisplayOrder", T::Int32)]]),
         ("ImageLabel", vec![vec![("Image", T::ContentId), ("ImageContent", T::Content)], vec![("ImageTransparency", T::Float32)]]),
         ("StringValue", vec![vec![("Value", T::String)], vec![("Tags", T::Tags)], vec![("Attributes", T::Attributes)]]),
-        ("ZzUnknownClass", vec![vec![("A", T::Int32)], vec![("B", T::String)], vec![("C", T::Vector3)], vec![("D", T::SharedString)], vec![("E", T::NumberSequence)]]),
+        ("ZzUnknownClass", vec![vec![("A", T::Int32)], vec![("B", T::String)], vec![("C", T::Vector3)], vec![("D", T::SharedString)], vec![("E", T::NumberSequence)], vec![("F", T::Content)]]),
         ("SpawnLocation", vec![vec![("TeamColor", T::BrickColor)], vec![("Size", T::Vector3), ("size", T::Vector3)], vec![("Color", T::Color3), ("brickColor", T::BrickColor)]]),
     ]
 }
@@ -89,15 +89,33 @@ fn gen_value(g: &VGen, r: &mut Rng, spelling: &str, ty: VariantType) -> Variant 
         // legacy Font items that have a FontFace equivalent (C15 owns the full range)
         ("Font", VariantType::Enum) => Variant::Enum(Enum::from_u32(r.below(46) as u32)),
         ("ScreenInsets", VariantType::Enum) => Variant::Enum(Enum::from_u32(r.below(4) as u32)),
+        // half of the Content values name an instance (one of the four targets) instead of a URI
+        (_, VariantType::Content) if r.chance(1, 2) => {
+            let t = TARGETS.with(|t| t.borrow().clone());
+            Variant::Content(Content::from_referent(t[r.below(t.len())]))
+        }
         _ => g.gen(r, ty).unwrap(),
     }
 }
 
 type Inst = Vec<(String, Variant)>;
 
+thread_local! {
+    /// referents of the four target instances that object-valued Content properties point at (fixed per case)
+    static TARGETS: std::cell::RefCell<Vec<Ref>> = std::cell::RefCell::new(vec![]);
+}
+
 fn build(class: &str, insts: &[&Inst], names: &[String]) -> (WeakDom, Vec<Ref>) {
     let mut root = InstanceBuilder::new("DataModel");
     let mut refs = vec![];
+    // first root of every file: a folder with the four targets, so that object references resolve (to the same
+    // paths) whether an instance is written alone or in its group
+    let mut targets = InstanceBuilder::new("Folder").with_name("targets");
+    for (k, t) in TARGETS.with(|t| t.borrow().clone()).into_iter().enumerate() {
+        targets.add_child(InstanceBuilder::new("Folder").with_referent(t).with_name(format!("T{}", k)));
+    }
+    refs.push(targets.referent());
+    root.add_child(targets);
     for (i, props) in insts.iter().enumerate() {
         let mut b = InstanceBuilder::new(class).with_name(names[i].clone());
         for (k, v) in props.iter() {
@@ -150,6 +168,7 @@ fn permutations(n: usize, r: &mut Rng) -> Vec<Vec<usize>> {
 
 fn case(rep: &mut Report, seed: u64, index: u64) {
     let mut r = Rng::derive(seed, "c08", index);
+    TARGETS.with(|t| *t.borrow_mut() = (0..4).map(|_| Ref::new()).collect());
     let g = VGen::binary();
     static OVR: std::sync::OnceLock<Vec<(&'static str, Vec<Vec<(&'static str, VariantType)>>)>> = std::sync::OnceLock::new();
     let mut fams = families();
@@ -190,7 +209,7 @@ fn case(rep: &mut Report, seed: u64, index: u64) {
     let mut alone: Vec<J> = vec![];
     for (i, inst) in group.iter().enumerate() {
         match roundtrip(class, &[inst], &[names[i].clone()]) {
-            Ok(Ok(d)) => alone.push(d["roots"][0].clone()),
+            Ok(Ok(d)) => alone.push(d["roots"][1].clone()),
             _ => {
                 rep.count("skipped.instance-does-not-serialize-alone");
                 return;
@@ -225,7 +244,7 @@ fn case(rep: &mut Report, seed: u64, index: u64) {
             Ok(Ok(d)) => d,
         };
         *outcomes.entry("ok".into()).or_default() += 1;
-        let roots = dump["roots"].as_array().cloned().unwrap_or_default();
+        let roots: Vec<J> = dump["roots"].as_array().map(|a| a.iter().skip(1).cloned().collect()).unwrap_or_default();
         if roots.len() != n {
             rep.violation("C08:instance-count", &format!("{} instances came back, {} written", roots.len(), n), replay.clone(), desc.clone());
             continue;
@@ -290,7 +309,7 @@ fn case(rep: &mut Report, seed: u64, index: u64) {
                         if let Some(ov) = a["props"].get(k) {
                             // a donor value that is itself the neutral value proves nothing
                             let flat: String = ov["v"].to_string().chars().filter(|c| !matches!(c, '"' | '[' | ']' | ',' | ' ')).collect();
-                            let neutralish = flat.chars().all(|c| c == '0') || flat == "false" || flat == "null";
+                            let neutralish = flat.chars().all(|c| c == '0') || flat == "false" || flat == "null" || ov["v"]["k"] == "None";
                             if ov == gv && !neutralish {
                                 rep.violation(
                                     &format!("C08:gap-took-donor-value:{}", gv["t"].as_str().unwrap_or("?")),
